@@ -88,13 +88,13 @@ SUBST = {"UnitKinds", "ConKinds", "SpecKinds", "SimpleV", "DeclV", "UseV", "Form
 for name, d in TABLE.items():
     L = ["SPECIFICATION Spec", "CONSTANTS"]
     ncmt = d.pop("NCmtCls", 7 if "_c15_" in name else 9)
-    ncpp = d.pop("NCppForms", 29)
+    ncpp = d.pop("NCppForms", 30)
     for k, v in d.items():
         if k == "MaxRich":
             L.append("  MaxRich " + v)
             continue
         L.append("  %s %s %s" % (k, "<-" if k in SUBST else "=", v))
-    L += ["  NCmtCls = %d" % ncmt, "  NCppForms = %d" % ncpp, "  NGarb = 7", "  DirectiveCls <- DirCls",
+    L += ["  NCmtCls = %d" % ncmt, "  NCppForms = %d" % ncpp, "  NGarb = 8", "  DirectiveCls <- DirCls",
           "INVARIANT WellNested", "INVARIANT GrammarInNest", "CONSTRAINT PDump"]
     open(os.path.join(SPECS, name + ".cfg"), "w").write("\n".join(L) + "\n")
 print(len(TABLE), "cfg files written")
